@@ -172,7 +172,7 @@ fn same_offset_difference(wa: &[u64], wb: &[u64]) -> Option<Vec<usize>> {
 
 /// The replayed form of one pair: both operands built from new() by set() (two objects also for equal sets).
 pub(super) fn eq_plain<const N: usize>(wa: &[u64], wb: &[u64]) -> Result<(), String> {
-    let (a, b) = (build_checked::<N>(wa)?, build_checked::<N>(wb)?);
+    let (a, b) = (A64(build_checked::<N>(wa)?), A64(build_checked::<N>(wb)?));
     let pats = Arc::new(vec![wa.to_vec(), wb.to_vec()]);
     let r = stall::section(
         || Pending::Equality { n: N, pats, i: 0 },
@@ -222,16 +222,16 @@ pub(super) fn equality_part<const N: usize>(cx: &mut Ctx, ev: &mut serde_json::M
         .into_par_iter()
         .map(|lo| {
             let mut out = EqOut::default();
-            let bs: Vec<Bitset<N>> = pats.iter().map(|w| build::<N>(w)).collect();
+            let bs: Vec<A64<Bitset<N>>> = pats.iter().map(|w| A64(build::<N>(w))).collect();
             for i in lo..(lo + chunk).min(k) {
                 PROGRESS.fetch_add(1, Ordering::Relaxed);
-                let twin = build::<N>(&pats[i]);
+                let twin = A64(build::<N>(&pats[i]));
                 let row = stall::section(
                     || Pending::Equality { n: N, pats: pats.clone(), i },
                     || {
                         for j in 0..k {
                             stall::detail(j as u64);
-                            let b = if i == j { &twin } else { &bs[j] };
+                            let b: &Bitset<N> = if i == j { &twin } else { &bs[j] };
                             match catch(|| eq_case::<N>(&bs[i], &pats[i], b, &pats[j])) {
                                 Ok(Ok(seen)) => {
                                     out.evals += seen.evals;
